@@ -256,7 +256,6 @@ func C15(p *load.Program, run *report.Run) {
 	run.Floor("equality-tests", 2)
 }
 
-
 // c16branches: control dependence.  A branch whose condition is computed from
 // received data (other than the verdict of a full-label equality) may only
 // *validate*: one of its two sides must be unable to reach a success return.  If
